@@ -558,7 +558,7 @@ def leg_r(wd, tier, binary, verdict, family="honest", stub=None):
     nst, ned = vlib.graph_stats(r.edges)
     inits, start, medges, states = macro_graph(r.edges, honest, TREES["C" if family == "honest" else "B"])
     rng = random.Random(vlib.seed() + (11 if family == "honest" else 12))
-    maxp = (14 if tier == "quick" else (300 if family == "byz" else 120))
+    maxp = (14 if tier == "quick" else 300) if family == "byz" else None
     paths, covered, nmacro = macro_paths(inits, start, medges, states, rng, maxp)
     log("  R: Sync graph (%s) %d states / %d edges -> %d quiescent states / %d macro-steps; %d paths cover %d of them" %
         (family, nst, ned, len(medges), nmacro, len(paths), covered))
@@ -571,3 +571,119 @@ def leg_r(wd, tier, binary, verdict, family="honest", stub=None):
     return dict(states=nst, edges=ned, quiescent=len(medges), macro_steps=nmacro, paths=len(paths), covered=covered,
                 steps=res["evaluations"], distinct=res["distinct"], diverged=res["counts"].get("diverged", 0), samples=res["samples"],
                 full=(covered == nmacro))
+
+
+# ------------------------------------------------------------------ replay / selftest
+
+def replay_common(prop, path):
+    wd = vlib.workdir(prop + "-replay")
+    binary = vlib.go_build("syncx", wd)
+    mm = json.load(open(path))
+    rp = mm.get("replay", {})
+    verdict = vlib.Verdict(prop)
+    kind = rp.get("kind")
+    if kind == "converge":
+        inp = os.path.join(wd, "in.json")
+        json.dump({"scenarios": [rp["scenario"]], "width": 1, "retry": True}, open(inp, "w"))
+        res = vlib.go_run(binary, "TestConverge", wd, env={"VERIF_IN": inp}, timeout=900)
+        verdict.add_all(res["mismatches"])
+        validate_all(wd, "synctrace-", verdict, prop)
+    elif kind == "byz":
+        inp = os.path.join(wd, "in.json")
+        json.dump({"scenarios": [rp["scenario"]], "width": 1, "retry": True}, open(inp, "w"))
+        res = vlib.go_run(binary, "TestByz", wd, env={"VERIF_IN": inp}, timeout=900)
+        verdict.add_all(res["mismatches"])
+        validate_all(wd, "byztrace-", verdict, prop)
+    elif kind == "path":
+        inp = os.path.join(wd, "in.json")
+        json.dump({"family": rp["family"], "paths": [rp["path"]], "width": 1}, open(inp, "w"))
+        res = vlib.go_run(binary, "TestReplay", wd, env={"VERIF_IN": inp}, timeout=900)
+        verdict.add_all(res["mismatches"])
+    else:
+        log("trace rejections are reproduced by re-running the scenario they belong to (same VERIF_SEED): ./check %s" % prop)
+        return 2
+    return verdict.finish()
+
+
+def replay(path):
+    return replay_common(PROP, path)
+
+
+def corrupt_and_validate(wd, src, mutate, tag):
+    """copies a good trace file, corrupts one recorded field, expects TLC to reject it"""
+    lines = open(src).read().splitlines()
+    done = False
+    for i, l in enumerate(lines):
+        e = json.loads(l)
+        if mutate(e):
+            lines[i] = json.dumps(e, separators=(",", ":"))
+            done = True
+            break
+    if not done:
+        return None
+    p = os.path.join(wd, "selftest-%s.ndjson" % tag)
+    open(p, "w").write("\n".join(lines) + "\n")
+    v = vlib.Verdict("selftest"); v.findings = []
+    _, rej, _ = validate_sync_file(wd, p, "selftest_" + tag, v, PROP)
+    return rej >= 1 or len(v.violations) >= 1
+
+
+def selftest():
+    wd = vlib.workdir(PROP + "-selftest")
+    binary = vlib.go_build("syncx", wd)
+    ok = True
+    # 1. Leg R against a deliberately wrong oracle must find a mismatch
+    v = vlib.Verdict(PROP + "-selftest"); v.findings = []
+    leg_r(wd, "quick", binary, v, family="honest", stub="tip-a4-is-a3")
+    ok1 = any(m["sig"].startswith("replay:honest:") for m in v.violations)
+    log("selftest 1 (replay against a wrong oracle finds a mismatch): %s" % ("ok" if ok1 else "FAILED"))
+    # 2. a good trace with one corrupted field must be rejected by TLC
+    rng = random.Random(5)
+    scs = [make_scenario(rng, "t%d" % i, d, "quick", n=2, trunk=t) for i, (d, t) in enumerate([(9, 35), (1, 12), (11, 25)])]
+    v2 = vlib.Verdict(PROP + "-selftest"); v2.findings = []
+    leg_t(wd, "quick", binary, v2, scenarios=scs, width=3)
+    src = [os.path.join(wd, f) for f in sorted(os.listdir(wd)) if f.startswith("synctrace-") and os.path.getsize(os.path.join(wd, f)) > 0]
+    ok2 = True
+
+    def flip_err(e):
+        if e["op"] in ("AddBlocks", "AddValidated") and not e["err"]:
+            e["err"] = True
+            return True
+
+    def wrong_tip(e):
+        if e["op"] in ("AddBlocks", "AddValidated") and e["tip"] == e["bs"][-1] and len(e["bs"]) > 1:
+            e["tip"] = e["bs"][0]
+            return True
+
+    def drop_block(e):
+        if e["op"] in ("AddBlocks", "AddValidated") and len(e["bs"]) > 2:
+            del e["bs"][1]
+            return True
+
+    def bad_states(e):
+        if e["op"] == "AddValidated":
+            e["sok"] = False
+            return True
+    for name, mut in (("err-flag", flip_err), ("tip", wrong_tip), ("unlinked-batch", drop_block), ("states", bad_states)):
+        got = None
+        for f in src:
+            got = corrupt_and_validate(wd, f, mut, name)
+            if got is not None:
+                break
+        log("selftest 2 (trace with corrupted %s rejected by TLC): %s" % (name, "ok" if got else ("FAILED" if got is False else "no such event")))
+        ok2 = ok2 and bool(got)
+    # 3. the model without its premises / with the named deviations must fail
+    ok3 = True
+    for cfg, what in (("Sync_honest_line3_noannounce.cfg", "no re-announcement: Convergence fails (swallowed relay)"),
+                      ("Sync_honest_line3_headeronly.cfg", "header-only announcements: Convergence fails (one block behind)"),
+                      ("Sync_honest_cp2_dev.cfg", "history not anchored at a checkpoint node's lowest block: Convergence fails")):
+        x = vlib.run_tlc(wd, "MCSync", cfg, workers=4, timeout=900)
+        good = x.exit != 0 and "Temporal property Convergence was violated" in (x.error or "") + x.out
+        log("selftest 3 (%s): %s" % (what, "ok" if good else "FAILED"))
+        ok3 = ok3 and good
+    # 4. the directed reproduction of a known finding must be detected on the real code
+    v4 = vlib.Verdict(PROP + "-selftest"); v4.findings = []
+    leg_t(wd, "quick", binary, v4, scenarios=[s for s in directed_scenarios("quick") if s["id"].startswith("sideoutline")], width=2)
+    ok4 = any("ban-honest" in m["sig"] for m in v4.violations)
+    log("selftest 4 (honest peer banned for an outline on a side-chain parent is detected): %s" % ("ok" if ok4 else "FAILED (fixed in /repo?)"))
+    return 0 if ok1 and ok2 and ok3 and ok4 else 2
